@@ -66,6 +66,7 @@ pub fn prod_case(rep: &Report, sub: &Subject, file: &[u8], p: &[u8], sender: &[u
 
 pub fn run(rep: &'static Report) {
     rep.set_rule("E-GRAPH: breadth-first explicit-state search (stateright) from authentic files over the edit alphabet; in every reachable state the real decryptor is run on the state's bytes and compared with the acceptance model (the property statement), which is itself cross-checked against REF. Plus E-GRID: deviation-bounded words of REF-minted records through the real chunk loop, and (production size) every/selected single-bit flip and truncation of a 2-chunk file. distinct_nontrivial counts unique graph states (byte strings) + minted words");
+    rep.rule_add("CLI level: 26 authentic/edited files x 3 output wirings x 3 input wirings; E-ENV short-count sinks with <=1 short read and <=2 short writes for every tiny authentic stream and the production file.");
     rep.assume("forgery resistance of ChaCha20-Poly1305 / X25519 (an edit sequence cannot produce a second valid file other than a corpus file)");
     rep.assume("authentic corpus files are written by REF (independent of the encryptor under test); key/plaintext values from seed-derived alphabets");
     rep.assume("edit sequences longer than the depth bound are not explored");
